@@ -99,40 +99,60 @@ Definition lead_steps (ab : bool) (f : stp -> list tok) (steps : list stp) : lis
   | _ => TSlash :: join_steps ab f steps
   end.
 
-Fixpoint rend (ab : bool) (lvl : nat) (e : expr) {struct e} : list tok :=
-  let body :=
-    match e with
-    | EOr a b => rend ab 0 a ++ TName (lit "or") :: rend ab 1 b
-    | EAnd a b => rend ab 1 a ++ TName (lit "and") :: rend ab 2 b
-    | ECmp op a b => rend ab (cmp_level op) a ++ cmp_tok op :: rend ab (S (cmp_level op)) b
-    | EArith op a b => rend ab (ar_level op) a ++ ar_tok op :: rend ab (S (ar_level op)) b
-    | ENeg a => TMinus :: rend ab 6 a
-    | EUnion a b => rend ab 7 a ++ TPipe :: rend ab 8 b
-    | ELit s => [TLiteral s]
-    | ENum s => [TNumber s]
-    | EVar q => [TVar q]
-    | ECall q args => qname_toks q ++ TLPar :: sep_by TComma (rend ab 0) args ++ [TRPar]
-    | EPath abs steps => if abs then lead_steps ab (rend_step ab) steps else join_steps ab (rend_step ab) steps
-    | EFilter e0 preds steps =>
-        (if simple_primary e0 then rend ab 0 e0 else parens (rend ab 0 e0)) ++ brackets (rend ab 0) preds
-        ++ match steps with [] => [] | _ => lead_steps ab (rend_step ab) steps end
-    end in
-  if Nat.ltb (level e) lvl || bare_root e then parens body else body
-with rend_step (ab : bool) (s : stp) {struct s} : list tok :=
-  match s with
-  | SAxis a t preds =>
-      let explicit := TName (axis_name a) :: TColonColon :: rend_test t ++ brackets (rend ab 0) preds in
-      if ab then
-        match a with
-        | Self => match t, preds with NTNode, [] => [TDot] | _, _ => explicit end
-        | Parent => match t, preds with NTNode, [] => [TDotDot] | _, _ => explicit end
-        | Attribute => TAt :: rend_test t ++ brackets (rend ab 0) preds
-        | Child => rend_test t ++ brackets (rend ab 0) preds
-        | _ => explicit
-        end
-      else explicit
-  | SCall q args => qname_toks q ++ TLPar :: sep_by TComma (rend ab 0) args ++ [TRPar]
-  end.
+Fixpoint parensN (n : nat) (b : list tok) : list tok := match n with O => b | S k => parens (parensN k b) end.
+
+(** [xp e]: how many REDUNDANT pairs of parentheses to put around each occurrence of the
+    sub-expression [e] (an arbitrary function; [fun _ => 0] gives the minimal rendering).
+    [rendk k lvl e]: [e] at a position of level [lvl] with [k] redundant pairs around it;
+    when [k > 0] they also serve where a pair is required. *)
+Section Rend.
+  Variable xp : expr -> nat.
+  Variable ab : bool.
+
+  Fixpoint rendk (k : nat) (lvl : nat) (e : expr) {struct e} : list tok :=
+    let body :=
+      match e with
+      | EOr a b => rendk (xp a) 0 a ++ TName (lit "or") :: rendk (xp b) 1 b
+      | EAnd a b => rendk (xp a) 1 a ++ TName (lit "and") :: rendk (xp b) 2 b
+      | ECmp op a b => rendk (xp a) (cmp_level op) a ++ cmp_tok op :: rendk (xp b) (S (cmp_level op)) b
+      | EArith op a b => rendk (xp a) (ar_level op) a ++ ar_tok op :: rendk (xp b) (S (ar_level op)) b
+      | ENeg a => TMinus :: rendk (xp a) 6 a
+      | EUnion a b => rendk (xp a) 7 a ++ TPipe :: rendk (xp b) 8 b
+      | ELit s => [TLiteral s]
+      | ENum s => [TNumber s]
+      | EVar q => [TVar q]
+      | ECall q args => qname_toks q ++ TLPar :: sep_by TComma (fun a => rendk (xp a) 0 a) args ++ [TRPar]
+      | EPath abs steps => if abs then lead_steps ab rend_step steps else join_steps ab rend_step steps
+      | EFilter e0 preds steps =>
+          (if simple_primary e0 then rendk (xp e0) 0 e0 else parens (rendk (xp e0) 0 e0))
+          ++ brackets (fun p => rendk (xp p) 0 p) preds
+          ++ match steps with [] => [] | _ => lead_steps ab rend_step steps end
+      end in
+    match k with
+    | O => if Nat.ltb (level e) lvl || bare_root e then parens body else body
+    | S _ => parensN k body
+    end
+  with rend_step (s : stp) {struct s} : list tok :=
+    match s with
+    | SAxis a t preds =>
+        let explicit := TName (axis_name a) :: TColonColon :: rend_test t ++ brackets (fun p => rendk (xp p) 0 p) preds in
+        if ab then
+          match a with
+          | Self => match t, preds with NTNode, [] => [TDot] | _, _ => explicit end
+          | Parent => match t, preds with NTNode, [] => [TDotDot] | _, _ => explicit end
+          | Attribute => TAt :: rend_test t ++ brackets (fun p => rendk (xp p) 0 p) preds
+          | Child => rend_test t ++ brackets (fun p => rendk (xp p) 0 p) preds
+          | _ => explicit
+          end
+        else explicit
+    | SCall q args => qname_toks q ++ TLPar :: sep_by TComma (fun a => rendk (xp a) 0 a) args ++ [TRPar]
+    end.
+
+  Definition rend (lvl : nat) (e : expr) : list tok := rendk (xp e) lvl e.
+End Rend.
+
+(** no redundant parentheses *)
+Definition minimal : expr -> nat := fun _ => 0.
 
 (** the ASTs the grammar produces: a relative path has at least one step and does not
     begin with a function call (that is a filter expression); a filter expression has a
@@ -176,4 +196,4 @@ Definition tok_str (t : tok) : str :=
     white space between any two tokens, including around the colon of a QName) *)
 Definition unlex (ts : list tok) : str := flat_map (fun t => tok_str t ++ [32%N]) ts.
 
-Definition render (ab : bool) (e : expr) : str := unlex (rend ab 0 e).
+Definition render (xp : expr -> nat) (ab : bool) (e : expr) : str := unlex (rend xp ab 0 e).
